@@ -1,0 +1,54 @@
+//! Observation hooks for external verification harnesses.
+//!
+//! Compiled only with the cargo feature `verif_hooks`; with the feature off nothing in this
+//! file exists and no call site is compiled.  The hooks only hand out shared references to
+//! state that already exists; they never modify it.
+
+use crate::meet_pass::disp_structs::{DispAuth, TrainIdx};
+use crate::meet_pass::train_disp::TrainDisp;
+use std::cell::RefCell;
+
+/// Where in `run_dispatch` the snapshot was taken
+#[derive(Debug, Clone, Copy, PartialEq, Eq)]
+pub enum DispatchPhase {
+    /// end of one iteration of the outer loop: train `train_idx` has just been moved
+    AfterMove,
+    /// all trains finished, right before the timed paths are returned
+    Final,
+}
+
+/// Read-only view of the dispatcher state
+pub struct DispatchSnapshot<'a> {
+    pub phase: DispatchPhase,
+    /// index of the train that was moved (0 for `Final`)
+    pub train_idx: usize,
+    pub link_disp_auths: &'a [Vec<DispAuth>],
+    pub links_blocked: &'a [TrainIdx],
+    /// element 0 is the dummy train
+    pub train_disps: &'a [TrainDisp],
+}
+
+type Observer = Box<dyn FnMut(&DispatchSnapshot)>;
+
+thread_local! {
+    static DISPATCH_OBSERVER: RefCell<Option<Observer>> = RefCell::new(None);
+}
+
+/// Install an observer for `run_dispatch` calls made on the current thread.
+pub fn set_dispatch_observer(f: Observer) {
+    DISPATCH_OBSERVER.with(|o| *o.borrow_mut() = Some(f));
+}
+
+/// Remove the observer of the current thread (returns it, so captured state can be dropped
+/// or inspected by the caller).
+pub fn clear_dispatch_observer() -> Option<Observer> {
+    DISPATCH_OBSERVER.with(|o| o.borrow_mut().take())
+}
+
+pub(crate) fn observe_dispatch(snapshot: &DispatchSnapshot) {
+    DISPATCH_OBSERVER.with(|o| {
+        if let Some(f) = o.borrow_mut().as_mut() {
+            f(snapshot)
+        }
+    });
+}
